@@ -302,7 +302,7 @@ func (v *FnVC) oblige(kind, label, goal string, props []string, claimed bool, te
 	o := &Obligation{
 		Name: v.oblName(kind, label), Kind: kind, Props: props, Func: v.fname, Behav: v.behav,
 		Goal: goal, At: bi.point, Hoisted: v.hoisted(v.cur), Claimed: claimed, Text: text, block: v.cur,
-		Vars: v.modelVs,
+		Vars: v.pointVars(),
 	}
 	if pos.IsValid() {
 		o.Pos = v.w.fset.Position(pos)
@@ -1130,6 +1130,32 @@ func (v *FnVC) flatten(e Expr) []Expr {
 			}
 		}
 		out = append(out, c)
+	}
+	return out
+}
+
+// pointVars: parameters plus the scalar source variables live at the current point.
+func (v *FnVC) pointVars() []ModelVar {
+	out := append([]ModelVar{}, v.modelVs...)
+	for _, k := range sortedKeys(v.st) {
+		if !strings.HasPrefix(k, "L:") {
+			continue
+		}
+		name := v.localNames[k]
+		if name == "" {
+			continue
+		}
+		t := v.localTypes[k]
+		b, ok := t.Underlying().(*types.Basic)
+		if !ok {
+			continue
+		}
+		switch {
+		case b.Info()&types.IsBoolean != 0:
+			out = append(out, ModelVar{"local:" + name, v.st[k], "bool"})
+		case b.Info()&types.IsInteger != 0:
+			out = append(out, ModelVar{"local:" + name, v.st[k], "int"})
+		}
 	}
 	return out
 }
